@@ -91,7 +91,7 @@ class Sequences(Stage):
                 for c in twins:
                     c['which'] = twins[0]['which']
         # now and then the same commands over and over: matchers accumulated by hundreds of commands
-        repeat = d.int(15, 50) if d.chance(0.04) else None
+        repeat = d.int(15, 50) if d.chance(0.07) else None
         return dict(specs=specs, which=which, initial=initial, cmds=cmds, repeat=repeat, at_prompt=d.chance(0.4))
 
     @staticmethod
